@@ -209,6 +209,27 @@ def _falsy_is_legit(ci, pname):
     return False
 
 
+def _through_choice_helper(repo, v):
+    """`helper(x, self.x)` where the helper is a one-liner returning `a or b` / `a if a else b` of its two parameters is read as
+    `x or self.x` (the choice by truthiness is then made in the helper, e.g. _util.unset_or)"""
+    if not (v[0] == 'C' and isinstance(v[1], str) and ':' in v[1] and len(v[2]) == 2 and not v[3]):
+        return v
+    h = repo.func(v[1], required=False)
+    if h is None or h.cls is not None:
+        return v
+    rets = [n for n in ast.walk(h.node) if isinstance(n, ast.Return) and n.value is not None]
+    ps = h.params()[0]
+    if len(rets) != 1 or len(ps) != 2:
+        return v
+    r = rets[0].value
+    if isinstance(r, ast.BoolOp) and isinstance(r.op, ast.Or) and [getattr(x, 'id', None) for x in r.values] == ps:
+        return ('B', 'or', v[2][0], v[2][1])
+    if isinstance(r, ast.IfExp) and isinstance(r.test, ast.Name) and r.test.id == ps[0] and getattr(r.body, 'id', None) == ps[0] \
+            and getattr(r.orelse, 'id', None) == ps[1]:
+        return ('B', 'or', v[2][0], v[2][1])
+    return v
+
+
 def rule_replace_and_slots(check, rule, classes=UPGRADED, only_base_overrides=False):
     """C11.R1 / C14.R3: replace() and __init__ re-establish every added slot"""
     repo = check.repo
@@ -280,6 +301,7 @@ def rule_replace_and_slots(check, rule, classes=UPGRADED, only_base_overrides=Fa
                                                         % (chosen[0][1], tested[1], s_))
                             continue
                     if mname == 'replace':
+                        v = _through_choice_helper(repo, v)
                         # the choice between override and receiver's value must not depend on the truthiness of the override:
                         # `x or self.x` / `x if x else self.x` ignore an explicitly passed empty list / dict / None
                         truthy_sel = None
@@ -302,6 +324,19 @@ def rule_replace_and_slots(check, rule, classes=UPGRADED, only_base_overrides=Fa
                                                 'explicitly passed empty value (sources=[], source_depths={}, function=None) is silently ignored'
                                                 % (cname, s_, truthy_sel[1]), key=k4, effect=show(v)[:120],
                                                 witness='p.replace(sources=[]).sources == []')
+                            continue
+                        # the receiver's value is kept *as it is* (or as an equal copy): a package function applied to it on the way
+                        # (copy_sources adds a '+depths' entry, swaps functions, shifts depths) makes `x.replace()` differ from `x`
+                        reshaped = [s2 for s2 in subterms(v) if isinstance(s2, tuple) and s2 and s2[0] == 'C' and isinstance(s2[1], str) and ':' in s2[1]
+                                    and any(mentions(a_, ('A', selft, s_)) for a_ in s2[2])]
+                        if reshaped:
+                            k5 = k + '|reshaped'
+                            if k5 not in seen:
+                                seen.add(k5)
+                                check.violation(rule, site_of(m, m.node), '%s.replace does not keep the receiver\'s %r as it is when no override is given: it '
+                                                'passes it through %s(), so `x.replace()` need not equal `x` (copy_sources, for one, adds a \'+depths\' '
+                                                'entry to a map that has none)' % (cname, s_, reshaped[0][1].split(':')[-1]), key=k5, effect=show(v)[:120],
+                                                witness="UpgradedSignature(params).replace().sources == {}")
                             continue
                         # defaults to the receiver's value, overridden by the argument
                         from_self = mentions(v, ('A', selft, s_))
